@@ -38,8 +38,8 @@ func serialBus(id string, seed int64, writer bool) *trace.Scenario {
 	sc := &trace.Scenario{ID: id, Reset: []any{trace.B2I(writer), "bus", seed}}
 	for i := 0; i < 300; i++ {
 		a := []int{0xff01, 0xff01, 0xff02, 0xff00, 0xff03, 0xff0f, 0xff10 + rng.Intn(0x30), 0xff80 + rng.Intn(0x7f), 0xc000 + rng.Intn(0x100), 0xff40 + rng.Intn(12)}[rng.Intn(10)]
-		if a == 0xff46 {
-			a = 0xff01
+		if a == 0xff46 && rng.Intn(3) > 0 {
+			a = 0xff01 // an OAM DMA is "other I/O" too, but keep it occasional
 		}
 		if rng.Intn(4) == 0 {
 			sc.Ev = append(sc.Ev, []any{"r", a, int(m.M.Read(uint16(a)))})
@@ -70,7 +70,7 @@ func serialProg(id string, seed int64, writer bool) *trace.Scenario {
 	sc := &trace.Scenario{ID: id, Reset: []any{trace.B2I(writer), "prog", seed}}
 	var code []int
 	for len(code) < 600 {
-		switch rng.Intn(8) {
+		switch rng.Intn(9) {
 		case 0, 1, 2:
 			code = append(code, 0x3e, rng.Intn(256), 0xe0, 0x01)
 		case 3:
@@ -81,6 +81,12 @@ func serialProg(id string, seed int64, writer bool) *trace.Scenario {
 			code = append(code, 0x3e, rng.Intn(256), 0xe0, []int{0x00, 0x03, 0x06, 0x42, 0x43, 0x80 + rng.Intn(0x70)}[rng.Intn(6)])
 		case 6:
 			code = append(code, 0x0e, 0x01, 0x3e, rng.Intn(256), 0xe2) // LD C,01; LD A,n; LD (FF00+C),A
+		case 7:
+			if rng.Intn(3) == 0 {
+				code = append(code, 0x3e, 0xc0+rng.Intn(0x1f), 0xe0, 0x46) // start an OAM DMA from work RAM
+			} else {
+				code = append(code, 0x21, 0x01, 0xff, 0x36, rng.Intn(256))
+			}
 		default:
 			code = append(code, 0x21, 0x01, 0xff, 0x36, rng.Intn(256)) // LD HL,FF01; LD (HL),n
 		}
